@@ -1,2 +1,98 @@
-(* placeholder; replaced below *)
-Require Import CCP.Model.Pw7.
+(* C17 — Cisco password helpers: type 7 decrypts to the original; type 5/8/9 verify.
+   Statements are about Model/Pw7.v (hand model of CiscoPassword, tables regenerated from the source on every
+   run: gen/TabC17.v).  A password is the list of its code points (bytes for the ASCII alphabet of the property).
+
+   FULL STATEMENT of the property and what is proved of it:
+   (a) for every password the helper accepts, decrypt_type_7 (encrypt_type_7 p) = p             -- proved (C17_type7_roundtrip_accepted)
+   (b) type-7 strings of an independent encoder with ANY salt decrypt to the plaintext           -- proved (C17_decrypt7_encrypt7, all salts < 100)
+   (c) type 5 / 8 / 9 outputs have the Cisco format ...                                          -- layout proved for 8 / 9 (C17_type89_layout,
+                                                                                                    C17_hash_field_43, C17_translate_is_cisco_b64)
+       ... and verify when recomputed with MD5-crypt / PBKDF2-HMAC-SHA256 / scrypt              -- NOT PROVED (tested by recomputation only:
+                                                                                                    stream fmt89 and aux() of harness/props/c17.py)
+   (d) passwords longer than 127 characters or containing '?' or a double quote are rejected                -- proved (C17_pwd_check_rejects, C17_pwd_check_spec) *)
+From Coq Require Import NArith ZArith List.
+Require Import CCP.Lib.PyStr CCP.Lib.Res CCP.gen.TabC17 CCP.Model.Pw7 CCP.Proofs.C17Proofs.
+Import ListNotations.
+Open Scope N_scope.
+
+(* (b) the reference encoder's output decrypts to the plaintext: every two-digit salt, every non-empty byte string *)
+Theorem C17_decrypt7_encrypt7 : forall salt pw,
+  salt < 100 -> pw <> [] -> Forall (fun b => b < 256) pw -> decrypt7 (encrypt7 salt pw) = Ok pw.
+Proof. exact decrypt7_encrypt7. Qed.
+Print Assumptions C17_decrypt7_encrypt7.
+Example ex_decrypt7 : decrypt7 [48;50;48;53;48;68;52;56;48;56;48;57] = Ok [99;105;115;99;111]   (* "02050D480809" -> "cisco" *)
+                      /\ encrypt7 2 [99;105;115;99;111] = [48;50;48;53;48;68;52;56;48;56;48;57].
+Proof. split; vm_compute; reflexivity. Qed.
+
+(* (a) CiscoPassword().decrypt_type_7(CiscoPassword().encrypt_type_7(p)) = p whatever salt the encoder draws *)
+Theorem C17_type7_roundtrip_accepted : forall salt pw,
+  salt < 100 -> pw <> [] -> Forall (fun b => b < 256) pw -> pwd_check pw = Ok tt ->
+  bind (encrypt_type_7 salt pw) decrypt7 = Ok pw.
+Proof. exact type7_roundtrip_accepted. Qed.
+Print Assumptions C17_type7_roundtrip_accepted.
+Example ex_roundtrip_hyp : pwd_check [99;105;115;99;111] = Ok tt /\ Forall (fun b => b < 256) [99;105;115;99;111].
+Proof. split; [reflexivity | repeat constructor]. Qed.
+
+(* the encoder's output is a type-7 string: two decimal digits spelling the salt, two upper-case hex digits per byte *)
+Theorem C17_encrypt7_shape : forall salt pw, salt < 100 -> Forall (fun b => b < 256) pw ->
+  exists d1 d2 body, encrypt7 salt pw = d1 :: d2 :: body /\ is_digit d1 = true /\ is_digit d2 = true /\
+    (Z.of_N (10 * (d1 - 48) + (d2 - 48)) = Z.of_N salt) /\ length body = (2 * length pw)%nat /\ forallb is_upper_hex body = true.
+Proof. exact encrypt7_shape. Qed.
+Print Assumptions C17_encrypt7_shape.
+
+(* the xlat tuple written in decrypt_type_7 is Cisco's key "dsfd;kfoA,.iyewrkldJKDHSUBsgvca69834ncxv9873254k;fg87", wrapped at 53 *)
+Theorem C17_xlat_is_cisco_key : tab_xlat = cisco_key /\ tab_wrap = 53%Z /\ length tab_xlat = 53%nat.
+Proof. exact (conj xlat_is_cisco_key (conj wrap_is_53 xlat_len)). Qed.
+Print Assumptions C17_xlat_is_cisco_key.
+
+(* (d) pwd_check accepts exactly: length <= 127 and no character of invalid_chars (which the source defines as ?, backslash, double quote) *)
+Theorem C17_pwd_check_spec : forall pw,
+  pwd_check pw = Ok tt <-> (length pw <= tab_max_len)%nat /\ Forall (fun c => ~ In c tab_invalid_chars) pw.
+Proof. exact pwd_check_spec. Qed.
+Print Assumptions C17_pwd_check_spec.
+Theorem C17_pwd_check_rejects : forall pw, (127 < length pw)%nat \/ In 63 pw \/ In 34 pw -> pwd_check pw = Raise E_Other.
+Proof. exact pwd_check_rejects. Qed.
+Print Assumptions C17_pwd_check_rejects.
+Example ex_rejects : pwd_check [97; 63; 98] = Raise E_Other /\ pwd_check [34] = Raise E_Other /\ pwd_check (repeat 97 128) = Raise E_Other
+                     /\ pwd_check (repeat 97 127) = Ok tt.
+Proof. repeat split; vm_compute; reflexivity. Qed.
+
+(* (c), layout part.  The std -> Cisco translation table is a bijection between the two 64-character alphabets ... *)
+Theorem C17_b64_translation_bijective :
+  (length tab_std_b64 = 64%nat /\ length tab_cisco_b64 = 64%nat /\ NoDup tab_std_b64 /\ NoDup tab_cisco_b64 /\
+   ~ In PAD tab_std_b64 /\ ~ In PAD tab_cisco_b64 /\ ~ In DOLLAR tab_cisco_b64) /\
+  (forall c, In c tab_std_b64 -> In (tr_char c) tab_cisco_b64) /\
+  (forall c d, In c tab_std_b64 -> In d tab_std_b64 -> tr_char c = tr_char d -> c = d) /\
+  (forall d, In d tab_cisco_b64 -> exists c, In c tab_std_b64 /\ tr_char c = d).
+Proof. exact (conj alphabets_wf b64_translation_bijective). Qed.
+Print Assumptions C17_b64_translation_bijective.
+
+(* ... so that translating the standard base-64 text IS base-64 with Cisco's alphabet, for every byte string *)
+Theorem C17_translate_is_cisco_b64 : forall bs, Forall (fun b => b < 256) bs ->
+  translate (b64enc tab_std_b64 bs) = b64enc tab_cisco_b64 bs.
+Proof. exact translate_b64enc. Qed.
+Print Assumptions C17_translate_is_cisco_b64.
+
+(* the hash field of every 32-byte digest: the 43 unpadded base-64 characters in Cisco's alphabet (only the '=' is cut off) *)
+Theorem C17_hash_field_43 : forall d, length d = 32%nat -> Forall (fun b => b < 256) d ->
+  b64enc tab_cisco_b64 d = cisco_hash d ++ [PAD] /\ length (cisco_hash d) = 43%nat /\
+  Forall (fun c => In c tab_cisco_b64) (cisco_hash d).
+Proof. exact cisco_hash_32. Qed.
+Print Assumptions C17_hash_field_43.
+
+(* "$8$<salt>$<43 chars>" / "$9$<salt>$<43 chars>" *)
+Theorem C17_type89_layout : forall kind salt d, length d = 32%nat -> Forall (fun b => b < 256) d ->
+  type89_string kind salt d = [DOLLAR; kind; DOLLAR] ++ salt ++ [DOLLAR] ++ firstn 43 (b64enc tab_cisco_b64 d) /\
+  length (type89_string kind salt d) = (3 + length salt + 1 + 43)%nat.
+Proof. exact type89_layout. Qed.
+Print Assumptions C17_type89_layout.
+Example ex_layout :
+  type89_string 56 [97;98] (repeat 0 31 ++ [255]) =
+  [36;56;36;97;98;36] ++ repeat 46 41 ++ [68; 119] /\ tab_t8_dklen = 32%nat /\ tab_t8_rounds = 20000 /\ tab_t9_params = [16384; 1; 1; 32]
+  /\ tab_t8_saltlen = 14%nat /\ tab_t9_saltlen = 14%nat.
+Proof. repeat split; vm_compute; reflexivity. Qed.
+
+(* information (outside the property's quantifier): the empty password passes pwd_check although the message says 1..127,
+   and its type-7 encoding (the two salt digits alone) makes decrypt_type_7 raise AttributeError *)
+Example ex_empty_password : pwd_check [] = Ok tt /\ decrypt7 (encrypt7 7 []) = Raise E_AttributeError.
+Proof. split; vm_compute; reflexivity. Qed.
